@@ -36,7 +36,7 @@ from framelen import Lin
 
 NEED_MORE = ('ctor', 'Ok', (('ctor', 'None', ()),))
 # calls that take the buffer and leave it as it is (everything else that is handed the buffer counts as touching it: fails closed)
-OBSERVERS = ('len', 'is_empty', 'get', 'first', 'last', 'remaining', 'has_remaining', 'chunk', 'capacity', 'as_ref', 'deref', 'iter',
+OBSERVERS = ('len', 'is_empty', 'get', 'first', 'last', 'split_first', 'split_last', 'remaining', 'has_remaining', 'chunk', 'capacity', 'as_ref', 'deref', 'iter',
              'starts_with', 'ends_with', 'contains', 'as_slice', 'borrow', 'eq', 'ne', 'to_vec', '#index')          # ('#index': a read buf[k] / buf[a..b] as framelen.FramedBuffer records it)
 ACQUIRE = ('std::sync::poison::rwlock::RwLock::<T>::read', 'std::sync::poison::rwlock::RwLock::<T>::write',
            'std::sync::poison::mutex::Mutex::<T>::lock')
@@ -129,6 +129,10 @@ def same_answer(v, t, pc):
     if v[0] == 'ctor' and v[1] == 'Ok' and len(v[2]) == 1 and known('Ok') is True:
         p = v[2][0]
         if p == ('variant', t, 'Ok', 0):
+            return True
+        if p[0] == 'tuple' and p[1] and all(e == ('field', ('variant', t, 'Ok', 0), str(i)) for i, e in enumerate(p[1])):
+            # `let (a, b) = t?; Ok((a, b))`: the payload taken apart and put together again, every component in its place (the number
+            # of components is the payload's own: the rebuilt value has the payload's type, or the function would not compile)
             return True
         # Ok(Some(x)) / Ok(None) rebuilt from the payload
         pay = ('variant', t, 'Ok', 0)
@@ -261,3 +265,115 @@ def check(ctx, f, D, dp, rule, interp_kw=None):
         ctx.fail(rule, D.path, loc(D.root), '%s%s (first length octets %s; %s)' % (where, msg, framelen.classes(xs), argument))
     ctx.floor(rule, 'paths of Decoder::decode that are the frame decoder\'s answer (256 header classes)', n_dec, 256)
     return n_dec
+
+
+def dead(H, pc):
+    """the path condition cannot hold for any buffer of header class H (a linear fact it states, or the sum of two, is violated by
+    every valuation)"""
+    cs = H.constraints(pc)
+    for i, c in enumerate(cs):
+        if c.rng(H.lmin)[1] < 0 or any(c.plus(d).rng(H.lmin)[1] < 0 for d in cs[i + 1:]):
+            return True
+    return False
+
+
+def most_buffered(H, pc):
+    """the largest number of buffered octets the path condition allows (None: no upper bound is stated)"""
+    best = None
+    for c in H.constraints(pc):
+        if c.k.get('L', 0) < 0:
+            # c >= 0 with c = r - m * len(buf), r over the other atoms: len(buf) <= max(r) / m
+            m = -c.k['L']
+            hi = Lin(c.c, {a: v for a, v in c.k.items() if a != 'L'}).rng(H.lmin)[1] // m
+            best = hi if best is None else min(best, hi)
+    return best
+
+
+def incomplete_answer(v):
+    """the returned term is Err(nom::Err::Incomplete(..)) - possibly the failure side of a `?`"""
+    while v[0] == 'tryerr':
+        v = v[1]
+    return v[0] == 'ctor' and v[1] == 'Err' and len(v[2]) == 1 and v[2][0][0] == 'ctor' and v[2][0][1].rsplit('::', 1)[-1] == 'Incomplete'
+
+
+def check_parser_entry(ctx, f, P, tlv, rule):
+    """The streaming entry point `P` (hirq.Body of `Parser::parse`) around the TLV parser `tlv` (def path): the same argument as
+    `check` makes for Decoder::decode, one level down.  The body is evaluated once for every value of the first length octet (octet 1
+    of the input a literal, every other octet and the number of octets buffered symbolic); every path
+      (E1) answers what the TLV parser answers for the caller's input - the term `tlv(input)`, or that term taken apart and rebuilt -
+           and then the question "is a short buffer answered with Incomplete?" is the TLV parser's (C07 B1 / B2 / B7, G3.streaming-
+           primitives); or
+      (E2) answers Err(Incomplete(..)) itself, without asking the TLV parser, on a condition that contradicts
+           len(input) >= 1 identifier octet + length octets + announced length: there the TLV parser would ask for more as well, so
+           the pre-test changes nothing (which Needed value it names is not read: the frame decoder does not look at it); or
+      is a violation: an answer of its own that is not Incomplete (an error, a value) - reported with what the path condition says
+      about the number of octets buffered, e.g. "fewer than the n length octets" -, or a pre-test that asks for more although the
+      whole element may be buffered (it would be held back for ever).
+    However the pre-tests are spelled - is_empty, len comparisons, first() / get(), slice patterns, a match or nested ifs."""
+    import sem
+    bufs = sem.params_of_type(f, P, lambda ty: ty == '[u8]')
+    if len(bufs) != 1:
+        ctx.fail('anchor-missing', 'input of the streaming entry point', loc(P.root), 'Parser::parse must take exactly one byte slice')
+        return
+    buf = ('param', bufs[0])
+    n_tlv = n_pre = 0
+    bad = {}          # (rule suffix, message) -> [x]
+    for x in range(256):
+        fb = framelen.FramedBuffer(buf, x, None)
+        I = framelen.FramedInterp(f, P, summaries=[fb], domain=fb, combinators=True, unroll=8)
+        H = framelen.HeaderClass(buf, x)
+        n = x - 128 if x >= 128 else 0
+        for o in I.run():
+            if o.kind == 'div':
+                continue          # a panic: the panic cone's business (C11 H1)
+            if o.kind not in ('val', 'ret'):
+                bad.setdefault(('short-buffer-is-incomplete', 'a path of the entry point that the evaluation could not finish (%s)' % o.kind), []).append(x); continue
+            v = o.val
+            tcalls = [e for e in o.st.ev if e[0] == 'call' and e[1] == tlv]
+            if len(tcalls) == 1 and tcalls[0][2] == (buf,) and same_answer(v, ('call', tlv, (buf,), tcalls[0][3].get('id')), o.st.pc):
+                n_tlv += 1
+                continue
+            if dead(H, o.st.pc):
+                continue
+            certainly_short = cannot_be_complete(H, o.st.pc)
+            if incomplete_answer(v) and not tcalls:
+                if certainly_short:
+                    n_pre += 1
+                else:
+                    cs = [c for c in H.constraints(o.st.pc) if c.k.get('L')]
+                    cond = ' and '.join(show_bound(c) for c in cs[:2]).replace('len(buf)', 'len(input)') or 'a condition that does not bound len(input)'
+                    bad.setdefault(('pre-test-agrees-with-tlv-parser', 'the entry point answers Incomplete itself under a test (%s) that a completely buffered element satisfies: '
+                                    'the TLV parser would deliver or reject it, the pre-test asks for more octets - for ever if the peer sends nothing more' % cond), []).append(x)
+                continue
+            ans = absx.fmt(v[1] if v[0] == 'tryerr' else v)[:60]
+            kind = next((z[1].rsplit('::', 1)[-1] for z in absx.leaves(v, lambda z: z[0] == 'ctor' and z[1].startswith('Err::'))), None)
+            how = ('drops the TLV parser\'s answer and answers %s' % ans) if tcalls and tcalls[0][2] == (buf,) else \
+                  ('applies the TLV parser to %s, not to the caller\'s input' % (absx.fmt(tcalls[0][2][0])[:40] if tcalls[0][2] else 'nothing')) if tcalls else ('answers %s itself' % (kind or ans))
+            top = most_buffered(H, o.st.pc)
+            if certainly_short or (top is not None and top < H.true_len().rng(H.lmin)[1]):
+                if x >= 128 and top is not None and top < 2 + n:
+                    when = 'with fewer than the %d length octets buffered (len(input) <= %d)' % (n, top)
+                elif top is not None:
+                    when = 'with at most %d octets buffered' % top
+                else:
+                    when = 'while the element is still incomplete'
+                bad.setdefault(('short-buffer-is-incomplete', 'the entry point %s @WHEN@: a frame that has not arrived completely is answered with %s instead of Incomplete (the connection dies '
+                                'at a read boundary there) - whenever fewer octets are buffered than identifier octet, length octets and announced content need, the only answer is '
+                                'Incomplete, whatever the entry point tests before it hands the input to the TLV parser' % (how, 'an error' if sem.is_err_result(v) else 'something else')), []).append((x, when))
+            else:
+                bad.setdefault(('pre-test-agrees-with-tlv-parser', 'the entry point %s on a path that does not go through the TLV parser (or drops its answer): what the caller gets is no longer '
+                                'what the TLV parser says about the input' % how), []).append(x)
+    for sfx in ('short-buffer-is-incomplete', 'pre-test-agrees-with-tlv-parser'):
+        msgs = sorted(((m, xs) for (s_, m), xs in bad.items() if s_ == sfx), key=lambda kv: (kv[1][0] if not isinstance(kv[1][0], tuple) else kv[1][0][0], kv[0]))
+        if not msgs:
+            ctx.ok('%s.%s' % (rule, sfx), P.path, loc(P.root), 'evaluated for all 256 values of the first length octet: every path is the TLV parser applied to the caller\'s input (%d per header class) '
+                   'or a pre-test answering Incomplete where the element cannot be complete (%d in all)' % (n_tlv // 256, n_pre))
+        for m, xs in msgs[:3]:
+            # (one message per kind of answer: the numbers are those of the first header class it occurs in)
+            if isinstance(xs[0], tuple):
+                m = m.replace('@WHEN@', xs[0][1])
+                xs = [x for x, _w in xs]
+            x0 = xs[0]
+            ctx.fail('%s.%s' % (rule, sfx), P.path, loc(P.root), 'header 30 %02x: %s (evaluated for all 256 values of the first length octet with the other octets and the number of octets buffered symbolic; '
+                     'first length octets %s)' % (x0, m, framelen.classes(xs)))
+    ctx.floor(rule, 'paths of the entry point that are the TLV parser\'s answer (256 header classes)', n_tlv, 256)
